@@ -74,7 +74,12 @@ fn size(max: u64) -> impl Strategy<Value = u64> {
 
 fn coll_strategy(max_m: usize, max_n: u64, work: u64) -> impl Strategy<Value = CollCase> {
     let b = prop_oneof![3 => prop::sample::select(vec![1.001f64, 1.01, 1.1, 1.5, 2.0]), 2 => (-4.0f64..0.0).prop_map(|e| 1.0 + 10f64.powf(e))];
-    (any::<bool>(), prop_oneof![1 => 1usize..6, 3 => crate::gen::m_strategy(1, max_m)], b, size(max_n), size(max_n), size(max_n), 0u8..8, any::<u64>()).prop_map(move |(wide, m, b, only_a, only_b, both, clip, seed)| {
+    (any::<bool>(), prop_oneof![4 => 1usize..6, 12 => crate::gen::m_strategy(1, max_m), 2 => prop::sample::select(vec![65_535usize, 65_537, 66_000, 68_000, 70_000, 80_000])], b, size(max_n), size(max_n), size(max_n), 0u8..8, any::<u64>()).prop_map(move |(wide, m, b, only_a, only_b, both, clip, seed)| {
+        // sketches of more than 2^16 registers (one case in nine): small sets only (an insertion costs O(m)), a base of at least 1.01 so
+        // that the documented q fits 16-bit registers, and 16-bit registers in three cases out of four
+        let (only_a, only_b, both) = if m > 60_000 { (only_a % 12, only_b % 12, both % 12) } else { (only_a, only_b, both) };
+        let b = if m > 60_000 && b < 1.01 { [1.01, 1.1, 1.5, 2.0][(seed >> 40) as usize % 4] } else { b };
+        let wide = if m > 60_000 { (seed >> 44) % 4 == 0 } else { wide };
         let both = if only_a + both == 0 && only_b + both == 0 { 1 } else { both };
         let n = (only_a + only_b + both) as f64;
         let mut ss = SsParams::documented(b, m, n.max(10.0), 1.0e-6);
@@ -174,6 +179,7 @@ pub fn eval_coll(c: &CollCase) -> Eval {
             let top = 1.0 + (c.ss.a.0 * na).ln() / c.ss.b.0.ln();
             ((kmax as f64 - top) * c.ss.b.0.ln()).abs() < 3.0
         }, "upper-limit-within-the-register-spread")
+        .class_if(c.m > 65_535, "m>65535")
         .class_if(c.both == 0, "disjoint")
         .class_if(c.only_a == 0 || c.only_b == 0, "nested-or-equal")
         .class_if(c.only_a + c.both == 0 || c.only_b + c.both == 0, "one-side-empty")
